@@ -70,7 +70,7 @@ def run(ctx):
             key = "%s/%s" % (ename, variant)
             effs = p.effects
             writes = [(i, e) for i, e in enumerate(effs) if e.kind == "write"]
-            balw = [(i, e, cell_delta(e)) for i, e in writes if e.item == BAL]
+            balw = [(i, e, cell_delta(e, path=p)) for i, e in writes if e.item == BAL]
             alww = [(i, e) for i, e in writes if e.item == ALW]
             first_bal = min([i for i, _, _ in balw]) if balw else None
             # ---- classify allowance writes
@@ -110,7 +110,7 @@ def run(ctx):
                 prob = check_draw(p, i, e)
                 d = None
                 if prob is None:
-                    d = cell_delta(e, field="allowance")
+                    d = cell_delta(e, field="allowance", path=p)
                     if d.nf is None:
                         prob = d.problem
                     elif d.nf.inexact or inexact_ops(e.value):
@@ -197,7 +197,7 @@ def check_decrease(ctx, p, key, alww):
     for i, e in alww:
         if e.op == "remove":
             continue
-        d = cell_delta(e, field="allowance")
+        d = cell_delta(e, field="allowance", path=p)
         if d.nf is None:
             ctx.ob("R02.4", key + "/subtract", False, detail=d.problem, sites=[e.site])
             continue
